@@ -32,7 +32,7 @@ Qed.
 Theorem c14_spec_strict ops : dom14 ops = true -> mixed_kinds_registered ops (World.run world0 ops) = false ->
   spec_c14 ops (World.run world0 ops) = true.
 Proof.
-  intros Hd Hm. destruct (walk_model true ops world0 [] [] [] [] (INV0 true) (RunInv_nil _ _ _) Hd (fun _ => Hm)) as [A B].
+  intros Hd Hm. destruct (walk_model true ops world0 [] [] [] [] (INVr_nil _ _ _ _ _ (INV0 true)) Hd (fun _ => Hm)) as [A B].
   unfold spec_c14. apply andb_true_iff. split.
   - apply (B eq_refl).
   - eapply walk_weaken; [| |exact A]; auto. apply same_types_of_eqb.
@@ -52,3 +52,5 @@ Example ex_gathergen_c14 : dom14 ex_gathergen = true /\ spec_c14 ex_gathergen (W
 Proof. split; [vm_compute; reflexivity|]. apply c14_spec_strict; vm_compute; reflexivity. Qed.
 Example ex_c14_witness_c14 : dom14 ex_c14_witness = true /\ known_c14 ex_c14_witness (World.run world0 ex_c14_witness) = true.
 Proof. split; vm_compute; reflexivity. Qed.
+Example ex_locals_drop_c14 : dom14 ex_locals_drop = true /\ spec_c14 ex_locals_drop (World.run world0 ex_locals_drop) = true.
+Proof. split; [vm_compute; reflexivity|]. apply c14_spec_strict; vm_compute; reflexivity. Qed.
